@@ -6,6 +6,7 @@ import (
 	"fmt"
 	"sort"
 	"strings"
+	"time"
 
 	"github.com/jamf/regatta/regattapb"
 	"github.com/jamf/regatta/storage/table/fsm"
@@ -462,6 +463,7 @@ func Replay(raw json.RawMessage) (string, bool) {
 // equal the state at an entry boundary of the call (in log order) - never part of a transaction.
 
 func runVisibility(r *evid.Run) {
+	t0 := time.Now()
 	bound := 2
 	if r.Thorough() {
 		bound = 3
@@ -478,30 +480,38 @@ func runVisibility(r *evid.Run) {
 		var updErr string
 		pre, post := "", ""
 		var allowed []string // states at entry boundaries, in log order (entries are separate commands: a reader may see a prefix of the call's entries, never part of a transaction)
+		var base uint64
 		mk := func() sched.Scenario {
-			if inst != nil {
+			// an instance serves 64 executions, emptied and re-seeded at fresh indices before each
+			// (an instance left in an unknown state by an abnormal execution is replaced)
+			if inst != nil && base >= 640 { // bound the pile of range tombstones the resets leave behind
 				inst.Close()
+				inst = nil
 			}
-			env := fsmx.NewEnv()
-			var err error
-			inst, _, err = env.Open("t", 10001, fsm.RecoveryTypeSnapshot)
-			if err != nil {
-				panic(err)
+			if inst == nil {
+				env := fsmx.NewEnv()
+				var err error
+				inst, _, err = env.Open("t", 10001, fsm.RecoveryTypeSnapshot)
+				if err != nil {
+					panic(err)
+				}
+				base = 0
 			}
-			_, _ = inst.Update([]sm.Entry{fsmx.Entry(1, PutBatch("k", "old", "z", "old"))})
+			base += 10
+			_, _ = inst.Update([]sm.Entry{fsmx.Entry(base, Del("\x00", wild, false, false)), fsmx.Entry(base+1, PutBatch("k", "old", "z", "old"))})
 			reads, updErr = nil, ""
 			var ents []sm.Entry
 			switch strings.SplitN(variant, "/", 2)[0] {
 			case "txn-alone":
-				ents = []sm.Entry{fsmx.Entry(2, Txn(nil, Ops(OpPut("x", "1", false), OpPut("y", "1", false)), nil))}
+				ents = []sm.Entry{fsmx.Entry(base+2, Txn(nil, Ops(OpPut("x", "1", false), OpPut("y", "1", false)), nil))}
 				pre, post = `["k"="old" "z"="old"]`, `["k"="old" "x"="1" "y"="1" "z"="old"]`
 				allowed = []string{pre, post}
 			case "put-then-txn-in-one-call":
-				ents = []sm.Entry{fsmx.Entry(2, Put("w", "1", false)), fsmx.Entry(3, Txn(Cmps(Exists("w", nil)), Ops(OpPut("x", "1", true), OpPut("y", "1", false)), nil))}
+				ents = []sm.Entry{fsmx.Entry(base+2, Put("w", "1", false)), fsmx.Entry(base+3, Txn(Cmps(Exists("w", nil)), Ops(OpPut("x", "1", true), OpPut("y", "1", false)), nil))}
 				pre, post = `["k"="old" "z"="old"]`, `["k"="old" "w"="1" "x"="1" "y"="1" "z"="old"]`
 				allowed = []string{pre, `["k"="old" "w"="1" "z"="old"]`, post}
 			case "txn-with-delete-and-put":
-				ents = []sm.Entry{fsmx.Entry(2, Txn(Cmps(Exists("k", nil)), Ops(OpDel("k", wild, false, true), OpPut("k", "new", false)), nil))}
+				ents = []sm.Entry{fsmx.Entry(base+2, Txn(Cmps(Exists("k", nil)), Ops(OpDel("k", wild, false, true), OpPut("k", "new", false)), nil))}
 				pre, post = `["k"="old" "z"="old"]`, `["k"="new"]`
 				allowed = []string{pre, post}
 			}
@@ -556,6 +566,7 @@ func runVisibility(r *evid.Run) {
 				}
 				if x.Deadlock || x.Livelock || x.Panic != "" || updErr != "" {
 					r.Violate("visibility/execution-abnormal/"+variant, fmt.Sprintf("deadlock=%v livelock=%v panic=%s update error=%s", x.Deadlock, x.Livelock, x.Panic, updErr), cs)
+					inst = nil // state unknown (and Close could hang on a lock held by an aborted thread)
 					return "abnormal"
 				}
 				last := 0
@@ -588,4 +599,5 @@ func runVisibility(r *evid.Run) {
 		r.Part(map[string]any{"scenario": "statement-level visibility: " + variant, "executions": res.Executions, "preemption_bound_completed": res.Bound, "distinct_read_outcomes": len(res.Outcomes), "distinct_states": len(states)})
 	}
 	r.Extra("visibility_preemption_bound", bound)
+	r.Extra("visibility_seconds", int(time.Since(t0).Seconds()))
 }
